@@ -200,17 +200,20 @@ def target_dir(profile):
     return os.path.join(CACHE, "target-" + ("rel" if profile == "release" else "dev"))
 
 
-def build_harness(profile="dev"):
+def build_harness(profile="dev", prop=None):
+    """cargo build of harness/ (one binary per property: src/bin/cXX.rs) against /repo's working tree"""
     env = {"CARGO_TARGET_DIR": target_dir(profile), "RUSTFLAGS": f"--cfg {GUARD}"}
     lock = os.path.join(VERIF, "harness/Cargo.lock")
     if not os.path.exists(lock):
         shutil.copy(os.path.join(REPO, "Cargo.lock"), lock)
     cmd = ["cargo", "build", "--offline"] + (["--release"] if profile == "release" else [])
+    if prop:
+        cmd += ["--bin", prop.lower()]
     rc, out = sh(cmd, cwd=os.path.join(VERIF, "harness"), env=env, timeout=1800)
     return rc == 0, out
 
 
-def harness_bin(name="impl-run", profile="dev"):
+def harness_bin(name, profile="dev"):
     return os.path.join(target_dir(profile), "release" if profile == "release" else "debug", name)
 
 
@@ -266,7 +269,7 @@ def run_cases(cmd, cases, timeout=900, shards=None):
 
 
 def run_impl(prop, cases, profile="dev", timeout=900):
-    return run_cases([harness_bin("impl-run", profile), prop.lower()], cases, timeout)
+    return run_cases([harness_bin(prop.lower(), profile)], cases, timeout)
 
 
 def run_model(prop, cases, timeout=900):
